@@ -16,7 +16,7 @@ theorem loaded_dictionary_round_trips (hashOf : Array UInt8 → Bool → Nat →
     (addr : Nat) (data : Array UInt8) (acc : Int) (cap : Nat) (rest : List Op) (blk : List UInt8)
     (h : (run hashOf {} (.loadDict daddr d slow :: .compress addr data acc cap :: rest))[1]? = some (.block (some blk))) :
     decode d.toList blk = some data.toList :=
-  (run_parsed hashOf _ {} [] JX_init (IsTail.refl _) 1 addr data acc cap blk rfl h [] _ rfl (Or.inl rfl)).decode
+  (run_parsed hashOf _ {} [] Inv_init 1 addr data acc cap blk rfl h [] _ rfl (Or.inl rfl)).decode
 
 /-- … and when it is given only the last 64 KB of it (any tail of at least 65535 bytes): nothing older is ever referenced -/
 theorem loaded_dictionary_last_64KB_suffice (hashOf : Array UInt8 → Bool → Nat → Nat) (daddr : Nat) (d : Array UInt8) (slow : Bool)
@@ -24,13 +24,31 @@ theorem loaded_dictionary_last_64KB_suffice (hashOf : Array UInt8 → Bool → N
     (h : (run hashOf {} (.loadDict daddr d slow :: .compress addr data acc cap :: rest))[1]? = some (.block (some blk)))
     (front w : List UInt8) (hw : d.toList = front ++ w) (hlen : 65535 ≤ w.length) :
     decode w blk = some data.toList :=
-  (run_parsed hashOf _ {} [] JX_init (IsTail.refl _) 1 addr data acc cap blk rfl h front w hw (Or.inr hlen)).decode
+  (run_parsed hashOf _ {} [] Inv_init 1 addr data acc cap blk rfl h front w hw (Or.inr hlen)).decode
 
 /-- every LATER block of the stream too (any operations in between: more blocks anywhere, dictionary saves): it decodes against the dictionary
     followed by the blocks compressed since the load -/
 theorem stream_after_load_round_trips (hashOf : Array UInt8 → Bool → Nat → Nat) (ops : List Op) (k addr : Nat) (data : Array UInt8) (acc : Int) (cap : Nat)
     (blk : List UInt8) (hop : ops[k]? = some (.compress addr data acc cap)) (h : (run hashOf {} ops)[k]? = some (.block (some blk))) :
     decode (histAt [] ops k) blk = some data.toList :=
-  (run_parsed hashOf ops {} [] JX_init (IsTail.refl _) k addr data acc cap blk hop h [] _ rfl (Or.inl rfl)).decode
+  (run_parsed hashOf ops {} [] Inv_init k addr data acc cap blk hop h [] _ rfl (Or.inl rfl)).decode
+
+/-- **attached dictionary streams** (`LZ4_attach_dictionary` of a stream prepared by `LZ4_loadDict(Slow)`): the first block compressed after the
+    attachment — below the 4 KB threshold (`usingDictCtx`: two tables, index shift `dictDelta`) or above it (the dictionary stream is copied over the
+    working stream) — decodes to its source given the dictionary bytes; the dictionary stream is a VALUE of the model that no operation writes -/
+theorem attached_dictionary_round_trips (hashOf : Array UInt8 → Bool → Nat → Nat) (daddr : Nat) (d : Array UInt8) (slow : Bool)
+    (addr : Nat) (data : Array UInt8) (acc : Int) (cap : Nat) (before rest : List Op) (blk : List UInt8)
+    (h : (run hashOf {} (before ++ .attach daddr d slow :: .compress addr data acc cap :: rest))[before.length + 1]? = some (.block (some blk))) :
+    decode d.toList blk = some data.toList := by
+  have hop : (before ++ Op.attach daddr d slow :: Op.compress addr data acc cap :: rest)[before.length + 1]? = some (.compress addr data acc cap) := by
+    rw [List.getElem?_append_right (by omega)]; simp
+  have hh : histAt [] (before ++ Op.attach daddr d slow :: Op.compress addr data acc cap :: rest) (before.length + 1) = d.toList := by
+    have : ∀ (H : List UInt8) (b : List Op), histAt H (b ++ Op.attach daddr d slow :: Op.compress addr data acc cap :: rest) (b.length + 1) = d.toList := by
+      intro H b
+      induction b generalizing H with
+      | nil => simp [histAt, hist]
+      | cons x xs ih => simpa [histAt] using ih (hist H x)
+    exact this [] before
+  exact (run_parsed hashOf _ {} [] Inv_init (before.length + 1) addr data acc cap blk hop h [] _ (by rw [hh]; rfl) (Or.inl rfl)).decode
 
 end LZ4V.C12
